@@ -2,7 +2,8 @@
    spawn_wal_actor (FsyncPolicy::Always) on its scripted WalStore, separated by crashes:
    the configuration and, per incarnation, what the preceding crash spared, the schedule
    observed (order in which the actor handled the writes, where it flushed, where it
-   handled a Shutdown message that a separate task sent while writers were in flight) and the log
+   handled the Shutdown and TruncateUpTo messages that separate tasks sent while writers
+   were in flight) and the log
    (every I/O call with its outcome and every ack, in program order; cut at the crash);
    and, for a sample of crash instants j (= after j I/O calls) of the last incarnation,
    what the real recover_all_entries returned on the crashed image and which writes had
@@ -28,11 +29,14 @@ Notation CS := CSync.
 Notation CC := CCreate.
 Notation CH := CHdr.
 Notation CE := CEnt.
+Notation CD := CDel.
 Notation IO := LIo.
 Notation AK := LAck.
 Notation SW := SWrite.
 Notation SF := SFlush.
 Notation SD := SShutdown.
+Notation ST := STruncate.
+Notation TR := LTrunc.
 Notation DN := LDown.
 
 (* one incarnation: what the preceding crash kept of every file (file sequence, number of
@@ -57,7 +61,7 @@ Definition outcome_eqb (a b : outcome) : bool :=
   match a, b with OOk, OOk => true | OErr x, OErr y => effect_eqb x y | _, _ => false end.
 Definition call_eqb (a b : call) : bool :=
   match a, b with
-  | CSync x, CSync y | CCreate x, CCreate y | CHdr x, CHdr y => N.eqb x y
+  | CSync x, CSync y | CCreate x, CCreate y | CHdr x, CHdr y | CDel x, CDel y => N.eqb x y
   | CEnt x u, CEnt y v => N.eqb x y && N.eqb u v
   | _, _ => false
   end.
@@ -66,6 +70,7 @@ Definition log_item_eqb (a b : log_item) : bool :=
   | LIo c o, LIo d p => call_eqb c d && outcome_eqb o p
   | LAck w x, LAck v y => N.eqb w v && Bool.eqb x y
   | LDown, LDown => true
+  | LTrunc x, LTrunc y => N.eqb x y
   | _, _ => false
   end.
 Fixpoint list_eqb {A} (eqb : A -> A -> bool) (l m : list A) : bool :=
